@@ -11,8 +11,10 @@ EXPLANATION = (
     "channels, environment, process spawning, random numbers - are unreachable from the translation, simplification, parsing, analysis entry points, "
     "from every Task::decompose and from Display for Problem. DET-3: directory walks are sorted by file name (C20). FIXPOINT: apply_fixpoint exits only when previous == current with "
     "current = previous.apply(f), so the result r satisfies r.apply(f) == r for a deterministic f. RW-3 (necessary for termination): no composed "
-    "portfolio contains a rule together with its inverse.")
-UNDECIDED = ["termination of the rewrite system: no well-founded measure is derived for the non-schematic classical rules - not claimed",
+    "portfolio contains a rule together with its inverse. TERM: every portfolio member that is a schema `pattern => template` strictly decreases "
+    "(number of nodes, number of reverse implications) lexicographically without duplicating a metavariable, or is the identity; every other member "
+    "must be one of the eight rewrites whose termination argument was reviewed by hand (TERM_TABLE), so a new rewrite that does neither is reported.")
+UNDECIDED = ["termination of the eight non-schematic rewrites (quantifier and comparison rules): their measure arguments are a reviewed table, not derived; a change inside one of them that makes it oscillate is not detected by TERM",
              "address-space / allocator effects cannot influence output because no pointer value is printed (no `{:p}`, checked) - scheduler effects are C10"]
 ASSUMPTIONS = ["indexmap preserves insertion order", "the simplification rules are functions (no interior state)"]
 
@@ -271,4 +273,86 @@ def rule_loop_progress(ctx):
     ctx.add("LOOP-PROGRESS", "loops-found", n_loops >= 20, "", "%d loops analysed in the crate's MIR" % n_loops, nontrivial=False)
 
 
-RULES = [rule_det1, rule_det2, rule_det3, rule_fixpoint, rule_rw3, rule_loop_progress]
+# portfolio members that are not `pattern => template` schemas: the termination argument of each was read, not computed
+TERM_TABLE = {
+    "evaluate_comparisons": "replaces a comparison of two numerals / identical terms by a truth constant, splits a chain of n guards into n binary comparisons (chains of length 1 are left alone)",
+    "remove_orphaned_variables": "removes quantified variables that do not occur in the body: the number of quantified variables drops",
+    "remove_empty_quantifications": "removes a quantifier without variables: one node less",
+    "join_nested_quantifiers": "merges two nested quantifiers of the same kind: one node less",
+    "substitute_defined_variables": "eliminates an existentially quantified variable that has a definition: one bound variable less",
+    "restrict_quantifier_domain": "turns a general variable into an integer one: the number of general variables drops",
+    "extend_quantifier_scope": "moves a quantifier outwards over a conjunct that does not mention its variables: the sum of quantifier depths drops",
+    "simplify_transitive_equality": "drops one of two equalities that define the same variable: one conjunct less",
+}
+
+
+def rule_termination(ctx):
+    """TERM: every member of a portfolio that is a schema `pattern => template` strictly decreases the measure (number of nodes, number of
+    reverse implications) lexicographically - no metavariable is duplicated, the template is smaller, or equally large with fewer `<-` - or
+    leaves the formula unchanged; so does every finite composition, and apply_fixpoint stops.  Members that are not schemas must be in
+    TERM_TABLE (argument reviewed by hand); a new member of either kind that does neither is reported."""
+    from .. import rw
+    from . import c07
+    fx = ctx.facts
+    pf = c07.portfolios(fx)
+
+    def size(s_):
+        k = s_[0]
+        if k == "not":
+            return 1 + size(s_[1])
+        if k == "bin":
+            return 1 + size(s_[2]) + size(s_[3])
+        return 1
+
+    def rimps(s_):
+        k = s_[0]
+        if k == "not":
+            return rimps(s_[1])
+        if k == "bin":
+            return (1 if s_[1] == "rimp" else 0) + rimps(s_[2]) + rimps(s_[3])
+        return 0
+
+    def count(s_, acc):
+        k = s_[0]
+        if k == "var":
+            acc[s_[1]] = acc.get(s_[1], 0) + 1
+        elif k == "not":
+            count(s_[1], acc)
+        elif k == "bin":
+            count(s_[2], acc)
+            count(s_[3], acc)
+        return acc
+    seen = set()
+    n = 0
+    for name, ps in pf.items():
+        for p in ps:
+            if p in seen:
+                continue
+            seen.add(p)
+            if p not in fx.bodies:
+                ctx.bad("TERM", "member:" + hq.last(p), "", "portfolio member %s is not a function of the crate" % p)
+                continue
+            b = fx.bodies[p][0]
+            try:
+                rules = rw.rules_of_fn(b)
+            except rw.NotSchematic as e:
+                ctx.add("TERM", "table:" + b["name"], b["name"] in TERM_TABLE, ctx.site(b),
+                        "non-schematic member of %s: %s" % (name, TERM_TABLE.get(b["name"], "no reviewed termination argument for this rewrite (%s)" % e)), nontrivial=False)
+                continue
+            for lab, l, r, eqs in rules:
+                try:
+                    l2, r2 = rw.unify_equalities(l, r, eqs)
+                except rw.NotSchematic as e:
+                    ctx.gap("TERM", "%s:%s" % (b["name"], lab), ctx.site(b), str(e))
+                    continue
+                n += 1
+                cl, cr = count(l2, {}), count(r2, {})
+                nodup = all(cr[v] <= cl.get(v, 0) for v in cr)
+                ok = l2 == r2 or (nodup and (size(r2) < size(l2) or (size(r2) == size(l2) and rimps(r2) < rimps(l2))))
+                ctx.add("TERM", "%s:%s" % (b["name"], lab), ok, ctx.site(b),
+                        "%s  =>  %s: %s" % (rw.show(l2), rw.show(r2), "identity" if l2 == r2 else "size %d -> %d, reverse implications %d -> %d, no metavariable duplicated: %s" % (
+                            size(l2), size(r2), rimps(l2), rimps(r2), nodup)))
+    ctx.floor("TERM", "schematic_rules", n, 10)
+
+
+RULES = [rule_det1, rule_det2, rule_det3, rule_fixpoint, rule_rw3, rule_termination, rule_loop_progress]
